@@ -183,6 +183,26 @@ func headerCatalogue(pkg string) (*spec.File, []*hdrDecl) {
 	add("order/optional-between/no-override", []spec.Header{reqd("X-One", "integer", ""), opt("X-Trace"), reqd("X-Two", "boolean", "")}, []spec.Header{opt("X-Idem"), reqd("X-Three", "string", "date")})
 	add("order/optional-first/override-optional", []spec.Header{opt("X-Trace"), reqd("X-Tenant", "integer", ""), reqd("X-Tok", "integer", "")}, []spec.Header{{Name: "X-Trace", Type: "boolean", Required: true}})
 	add("order/override-two", []spec.Header{opt("X-Trace"), reqd("X-A", "integer", ""), reqd("X-B", "integer", ""), reqd("X-C", "integer", "")}, []spec.Header{reqd("X-C", "boolean", ""), reqd("X-A", "string", "uuid")})
+	// several methods in one service: each method's verdict depends on its own declarations only
+	addMulti := func(label string, svc []spec.Header, mths [][]spec.Header) {
+		n++
+		sname := fmt.Sprintf("Hdr%dService", n)
+		s := &spec.Service{Name: sname, BasePath: spec.S("/hdr"), Headers: svc}
+		for i, mh := range mths {
+			d := &hdrDecl{Label: fmt.Sprintf("%s/method%d-of-%d", label, i+1, len(mths)), Svc: svc, Mth: mh, SvcName: sname, Method: fmt.Sprintf("Call%dm%d", n, i+1), Path: fmt.Sprintf("/h%dm%d", n, i+1)}
+			d.Effective, d.Optional = effective(svc, mh)
+			s.Methods = append(s.Methods, &spec.Method{Name: d.Method, In: "." + pkg + ".HReq", Out: "." + pkg + ".HResp", HTTP: &spec.HTTP{Path: d.Path, Verb: 2}, Headers: mh})
+			decls = append(decls, d)
+		}
+		f.Services = append(f.Services, s)
+	}
+	addMulti("multi-method/with-without-with-without", nil, [][]spec.Header{{reqd("X-Request-ID", "string", "uuid")}, nil, {reqd("X-Api-Key", "string", "")}, nil})
+	addMulti("multi-method/without-first", nil, [][]spec.Header{nil, {reqd("X-Api-Key", "integer", "")}, nil})
+	addMulti("multi-method/optional-service-header/different-method-headers", []spec.Header{opt("X-Trace"), reqd("X-Tenant", "integer", "")},
+		[][]spec.Header{{reqd("X-Alpha-Token", "string", "")}, {reqd("X-Beta-Token", "boolean", "")}, nil, {reqd("X-Gamma-Token", "string", "email"), opt("X-Note")}})
+	addMulti("multi-method/two-optional-service-headers/different-method-headers", []spec.Header{opt("X-Trace"), opt("X-Span"), reqd("X-Tenant", "integer", "")},
+		[][]spec.Header{{reqd("X-Alpha-Token", "string", ""), reqd("X-Alpha-Two", "integer", "")}, {reqd("X-Beta-Token", "boolean", "")}, {opt("X-Only-Optional")}})
+	addMulti("multi-method/override-in-one-method", []spec.Header{reqd("X-Tok", "integer", "")}, [][]spec.Header{{reqd("X-Tok", "string", "uuid")}, nil, {reqd("X-Other", "boolean", "")}})
 	return f, decls
 }
 
@@ -271,6 +291,9 @@ func c09(c *Ctx) {
 		if dd := doc[d.SvcName]; dd != nil {
 			caseID := "hdr/openapi/" + d.Label
 			for _, op := range dd.Ops() {
+				if !strings.HasSuffix(op.Path, d.Path) {
+					continue // another method of the same service
+				}
 				have := map[string]oas.Param{}
 				for _, p := range op.Params {
 					if p.In == "header" {
